@@ -65,7 +65,8 @@ fn main() {
                 }
                 i += 1;
             }
-            let code = match id.as_str() {
+            // a panic of the harness itself (outside the guarded runs) is a harness error, never an alarm
+            let code = std::panic::catch_unwind(std::panic::AssertUnwindSafe(|| match id.as_str() {
                 "C02" => drive(&c02::C02, tier),
                 "C04" => {
                     framework::silence_library_stdout();
@@ -91,7 +92,12 @@ fn main() {
                     eprintln!("unknown or not-applicable property {id}");
                     2
                 }
-            };
+            }))
+            .unwrap_or_else(|_| {
+                let (loc, msg) = framework::take_panic().unwrap_or_default();
+                eprintln!("HARNESS ERROR: panic in the harness at {loc}: {msg}");
+                2
+            });
             std::process::exit(code);
         }
         "replay" => {
